@@ -495,6 +495,35 @@ func genG08(repo string, w *Out) error {
 		return fmt.Errorf("net.go: Listener.Accept does not accept from the stacked listener and apply TLS on top")
 	}
 	w.DefBool("t_pp_wraps_raw_listener", true)
+	// connections share nothing: the package-level variables of package proxyproto (non-test files), other than error values
+	var pkgVars []string
+	for _, rel := range []string{"proxyproto/proxy.go", "proxyproto/v1.go", "proxyproto/v2.go", "proxyproto/net.go"} {
+		pf2, err := Parse(repo, rel)
+		if err != nil {
+			return err
+		}
+		for _, d := range pf2.AST.Decls {
+			gd, ok := d.(*ast.GenDecl)
+			if !ok || gd.Tok.String() != "var" {
+				continue
+			}
+			for _, sp := range gd.Specs {
+				vs := sp.(*ast.ValueSpec)
+				for i, n := range vs.Names {
+					if i < len(vs.Values) {
+						src := pf2.Src(vs.Values[i])
+						if strings.HasPrefix(src, "errors.New(") || strings.HasPrefix(src, "fmt.Errorf(") {
+							continue
+						}
+					}
+					if n.Name != "_" {
+						pkgVars = append(pkgVars, n.Name)
+					}
+				}
+			}
+		}
+	}
+	w.DefStrList("t_pkg_vars", pkgVars)
 	// Read/Write must go through readHeader first
 	for _, name := range []string{"Conn.Read", "Conn.Write"} {
 		fd, err := fn.Func(name)
